@@ -11,6 +11,18 @@ from . import codecs as cd
 from .pdfwriter import Name, Ref, Revision, Stream, build
 
 
+class SecondAnswerDiffers(Exception):
+    """get_data() called again on the same stream object did not give the first answer"""
+
+
+def second_answer(st, first):
+    """every stream is asked twice: the decoded data is cached, the second answer must be the first"""
+    again = st.get_data()
+    if again != first:
+        raise SecondAnswerDiffers("second get_data() gave %r, the first %r" % (again[:20] if again else again, first[:20]))
+    return first
+
+
 # ------------------------------------------------------------------------------------------------ PDF batches
 class PdfBatch:
     """Collects stream objects, writes them into one PDF, reads every one back through
@@ -115,12 +127,14 @@ class PdfBatch:
                                 got, exc = st.get_data(), None
                             finally:
                                 calls = list(log)
+                        got = second_answer(st, got)
                     except Exception as e:   # noqa: BLE001 - judged by the caller
                         got, exc = None, e
                     on_result(tag, expected, got, exc, n, pdf, calls=calls, shape=shape)
                     continue
                 try:
                     got = doc.getobj(n).get_data()
+                    got = second_answer(doc.getobj(n), got)
                     exc = None
                 except Exception as e:   # noqa: BLE001 - judged by the caller
                     got, exc = None, e
@@ -250,7 +264,13 @@ CHAIN_PAYLOADS = (
     b"\x00" * 12,
     bytes(range(250, 256)) + bytes(range(0, 6)),
     b"BT (endstream) Tj ET\nendobj\n%%EOF\n\x00\x80",   # 36
+    b"",
 )
+# chains with an LZW stage get a payload long enough for that stage (and an LZW stage under it) to pass 253 codes,
+# i.e. 511 table entries, where /EarlyChange 0 and 1 part: 660 bytes that hardly compress
+import random as _random
+_r = _random.Random(660)
+LONG_PAYLOAD = bytes(_r.randrange(256) for _ in range(648)) + b"endstream\r\n\x00"
 
 
 def chain_geometry(n, variant):
@@ -267,11 +287,12 @@ def chain_geometry(n, variant):
 
 
 def chain_encode(layers, payload, variant):
-    """apply the writer's layers (last filter first).  -> (raw stream bytes, [param dict per layer])"""
+    """apply the writer's layers <<filter, predictor, earlychange>> (last filter first).
+    -> (raw stream bytes, [extra parameter entries per layer: predictor geometry, CCITT columns])"""
     data = payload
     parms = [None] * len(layers)
     for k in range(len(layers) - 1, -1, -1):
-        f, p = layers[k]
+        f, p, ec = layers[k]
         if p == 2 or p >= 10:
             c, col, bits, types = chain_geometry(len(data), variant + k)
             if p == 2:
@@ -279,9 +300,12 @@ def chain_encode(layers, payload, variant):
             else:
                 data = cd.png_predict(data, c, col, bits, types)
             parms[k] = {"Colors": c, "Columns": col, "BitsPerComponent": bits}
-        data = cd.encode_layer(f, data, variant + k)
+        columns = 8
+        if f == "CCF":
+            columns = 16 if (len(data) % 2 == 0 and (variant + k) % 2) else 8
+            parms[k] = {"Columns": columns}
+        data = cd.encode_layer(f, data, variant + k, ec=0 if ec == 0 else 1, columns=columns)
     return data, parms
-
 
 # ------------------------------------------------------------------------------------------------ StreamDelim, extended
 X_SAFE = (b"x", b"\xff", b"q")        # (no `(` or `%`: in fallback mode the rest of a cut payload is tokenized)
